@@ -867,6 +867,11 @@ def record(cfg):
             step["flat"] = flat_pareto(alg, cfg, n)
         if smodel is not None and not exc and not (pre["S"] == []):
             step["modeled"] = regions_are_current(alg, cfg, smodel, pre)
+            try:      # designs whose displayed region is a single point (zero width in every objective): bookkeeping for accuracy_runs
+                regs_ = alg.design_space.confidence_regions
+                step["points"] = [i for i in pre["S"] if hasattr(regs_[i - 1], "lower") and np.array_equal(regs_[i - 1].lower, regs_[i - 1].upper)]
+            except Exception:
+                step["points"] = []
         if smodel is not None and not exc and cfg["script"].get("poison"):
             poison_discarded(alg, cfg, post)
         if smodel is not None and not exc and not smodel.wander:
@@ -886,6 +891,7 @@ def record(cfg):
         last = T["steps"][-1]["post"]
         if last["S"] == []:
             T["final"] = truth_relations(alg, cfg, smodel.truth, last["P"], valid_history)
+            T["truth"] = [[int(x) for x in row] for row in smodel.truth]
             notes["valid_history"] = valid_history
     T["notes"] = notes
     T["wall"] = round(time.time() - t0, 2)
